@@ -27,7 +27,11 @@ MANIFEST = {
             'Defects 19, 25, 26 of DESIGN §2.7 and three more found here are repaired on branch wt-C15 '
             '(see known_findings.d/C15.json); the model describes the repaired code.',
 }
-RULE = ('objects: every class with every item shape it admits, denominators of rank 0-2, leading shapes of rank 0-4 with axis '
+RULE = ('operand provenance: fresh C-contiguous arrays, np.asfortranarray copies, transposed views of C bases, '
+        'every-second-element views of wider bases (last / first axis), and results of a previous shaping operation '
+        '(swap_axes, move_axis, roll_axis, broadcast_to applied to a C-contiguous pre-image), for values, mask arrays '
+        'and derivative arrays alike, for every operation, in both tiers; '
+        'objects: every class with every item shape it admits, denominators of rank 0-2, leading shapes of rank 0-4 with axis '
         'lengths 0-3 (quick: all shapes of rank <= 2 plus a seeded sample of rank 3-4; thorough: all 341), every mask '
         'representation (False / True / array / broadcast view), 0-2 derivatives with their own masks and denominators; '
         'arguments: every axis value from -rank-1 to rank (one illegal value on each side), rank= extension, all target '
@@ -191,7 +195,50 @@ def rand_obj(rng, shape, cls=None, numer=None, denom=None, nderiv=None, base=0, 
         o['derivs'].append({'key': 'tx'[k], 'denom': list(rng.choice([(), (2,), (3,), (2, 2)])),
                             'mask': rand_mask(rng, shape), 'base': 1000 * (k + 1) + base,
                             'view': rng.random() < 0.25})
+    rand_layout(rng, o)
     return o
+
+
+def row_const_mask(rng, shape):
+    n = prod(shape)
+    row = [rng.random() < 0.4 for _ in range(n // shape[0])]
+    if rng.random() < 0.3:
+        row = [rng.random() < 0.5] * len(row)
+    return rng.choice(mask_reps(row * shape[0], shape))
+
+
+def rand_layout(rng, o):
+    """operand provenance: how the arrays handed to polymath came about (memory layout, previous shaping
+    operation); the logical content and the request line do not depend on it"""
+    shape = o['shape']
+    L = len(shape)
+    r = rng.random()
+    if r < 0.3:
+        return
+    if r < 0.45:
+        o['layout'] = {'kind': 'F'}
+    elif r < 0.55:
+        o['layout'] = {'kind': 'T'}
+    elif r < 0.65:
+        o['layout'] = {'kind': rng.choice(['step', 'step0'])}
+    else:
+        ops = (['swap_axes', 'move_axis', 'roll_axis'] if L >= 2 else []) + (['broadcast_to'] if L >= 1 and shape[0] > 1 else [])
+        if not ops:
+            o['layout'] = {'kind': rng.choice(['F', 'T'])}
+            return
+        op = rng.choice(ops)
+        if op in ('swap_axes', 'move_axis'):
+            args = rng.sample(range(L), 2)
+        elif op == 'roll_axis':
+            args = [rng.randint(1, L - 1)]
+        else:
+            args = []
+            o['bview'] = True
+            o['mask'] = row_const_mask(rng, shape)
+            for d in o['derivs']:
+                d['view'] = True
+                d['mask'] = row_const_mask(rng, shape)
+        o['layout'] = {'kind': 'hist', 'op': op, 'args': args}
 
 
 def same_size_shapes(n, pool):
